@@ -87,7 +87,46 @@ func (node *Node) TopoWrite(s *common.Snapshot, signers []crypto.Hash) *common.S
 	if err != nil {
 		panic(err)
 	}
+	node.writeConsensusSnapshotInOrder(s)
 	return topo
+}
+
+// writeConsensusSnapshotInOrder records a consensus snapshot as the last
+// consensus operation while the topology lock is still held, so that no other
+// snapshot can be stored between the snapshot and its consensus record. A stop
+// between the two writes then leaves the snapshot as the last topology entry,
+// which SetupNode repairs; reloadConsensusState repeats the write idempotently.
+func (node *Node) writeConsensusSnapshotInOrder(s *common.Snapshot) {
+	if len(s.Transactions) != 1 {
+		return
+	}
+	tx, _, err := node.persistStore.ReadTransaction(s.Transactions[0])
+	if err != nil {
+		panic(err)
+	}
+	if tx == nil {
+		panic(s.Transactions[0])
+	}
+	switch tx.TransactionType() {
+	case common.TransactionTypeMint,
+		common.TransactionTypeNodePledge,
+		common.TransactionTypeNodeCancel,
+		common.TransactionTypeNodeAccept,
+		common.TransactionTypeNodeRemove,
+		common.TransactionTypeCustodianUpdateNodes,
+		common.TransactionTypeCustodianSlashNodes:
+	default:
+		return
+	}
+	if len(tx.References) == 0 {
+		// legacy consensus transactions carry no consensus reference and
+		// are never recorded, see WriteConsensusSnapshotWithHack
+		return
+	}
+	err = node.WriteConsensusSnapshotWithHack(s, tx)
+	if err != nil {
+		panic(err)
+	}
 }
 
 func (topo *TopologicalSequence) TopoStats(node *Node) {
